@@ -71,10 +71,15 @@ pub fn worker() -> Handler {
             let p2 = r2.out();
             // 3. behaviour: call f defined from T0 and from P1
             let call = "\nf a b </dev/null; echo \"rc=$?\"";
-            let mut sh3 = ipr.build_shell(&dir, &cfg).await;
-            let t_orig = ipr.run_on(&mut sh3, &format!("{}{t0}{call}", g::PRELUDE)).await.out();
-            let mut sh4 = ipr.build_shell(&dir, &cfg).await;
-            let t_print = ipr.run_on(&mut sh4, &format!("{}{p1}{call}", g::PRELUDE)).await.out();
+            //    (each call in its own empty directory: a body that creates files must not change what a
+            //    glob in the same body matches on the second call)
+            let (d3, d4) = (dir.join("orig"), dir.join("printed"));
+            let _ = std::fs::create_dir_all(&d3);
+            let _ = std::fs::create_dir_all(&d4);
+            let mut sh3 = ipr.build_shell(&d3, &cfg).await;
+            let t_orig = ipr.run_on(&mut sh3, &format!("{}{t0}{call}", g::PRELUDE)).await.out().replace(&*d3.to_string_lossy(), "<DIR>");
+            let mut sh4 = ipr.build_shell(&d4, &cfg).await;
+            let t_print = ipr.run_on(&mut sh4, &format!("{}{p1}{call}", g::PRELUDE)).await.out().replace(&*d4.to_string_lossy(), "<DIR>");
             // 4. export path: the text brush ships in BASH_FUNC_f%% defines, in a fresh shell, a function
             //    that prints identically
             let mut sh5 = ipr.build_shell(&dir, &cfg).await;
